@@ -430,7 +430,7 @@ pub fn run(tier: Tier) -> i32 {
                 }
             } {
                 "second-exclusion-over-open-relation-forgets-the-first".to_string()
-            } else if k == "cid-not-visible" && m.contains("used in Select") && flat.contains("group {") && flat.contains("(select {") {
+            } else if k == "cid-not-visible" && m.contains("used in Select") && flat.find("group {").map(|g| flat[g..].contains("select {")).unwrap_or(false) {
                 // a `select` inside the pipeline of a group narrows the relation to its items; the group's own final
                 // Select lists the key again, which the inner Select made invisible
                 "group-key-selected-after-inner-select-dropped-it".to_string()
